@@ -2,6 +2,7 @@
 use crate::__verif_prelude::*;
 use crate::types::response::StatusCode;
 use crate::types::Version;
+use crate::PeerId;
 
 const CODES: [u16; 8] = [200, 400, 404, 408, 429, 500, 505, 520];
 
@@ -130,3 +131,25 @@ fn c11_parse_u64_overflow_boundary() {
     assert!(got == want, "str::parse::<u64> == decimal grammar");
 }
 
+/// C05: the derived `Ord` on PeerId is the lexicographic (big-endian unsigned) order on the
+/// 32 bytes - the model used by the MIR-level checks (256-bit bvult).
+#[kani::proof]
+#[kani::unwind(34)]
+fn c05_peer_id_order_is_lexicographic() {
+    let a: [u8; 32] = kani::any();
+    let b: [u8; 32] = kani::any();
+    let mut i = 0;
+    let mut lt = false;
+    let mut decided = false;
+    while i < 32 {
+        if !decided && a[i] != b[i] {
+            lt = a[i] < b[i];
+            decided = true;
+        }
+        i += 1;
+    }
+    kani::cover!(decided && lt, "a < b reachable");
+    kani::cover!(!decided, "equal reachable");
+    assert!((PeerId(a) < PeerId(b)) == lt);
+    assert!((PeerId(a) == PeerId(b)) == !decided);
+}
